@@ -78,3 +78,17 @@ func refReqStep(s refReqState, name, value []byte) (n refReqState, wellFormed bo
 	n.cl = vIte64(isCL, clv, s.cl)
 	return n, wellFormed, dupAuthority
 }
+
+// refIsTchar: RFC 7230 3.2.6 token characters. Branch-free.
+func refIsTchar(c byte) bool {
+	r := vOr(vAnd(c >= 'a', c <= 'z'), vOr(vAnd(c >= 'A', c <= 'Z'), vAnd(c >= '0', c <= '9')))
+	for _, s := range []byte("!#$%&'*+-.^_`|~") {
+		r = vOr(r, c == s)
+	}
+	return r
+}
+
+// refLowerByte lower-cases an ASCII letter and leaves everything else alone.
+func refLowerByte(c byte) byte {
+	return byte(vIte64(vAnd(c >= 'A', c <= 'Z'), uint64(c)+32, uint64(c)))
+}
